@@ -7,11 +7,14 @@ Model: `Model/Filter.lean` (`Match`, `Validate`, the input of `Hash`) and `Model
 `Proofs/Decimal.lean` (`exactLt`, `exactLe`).  All statements are for every tree (any depth and
 width, any byte strings) and every tag map.
 
-The code as it is (`matchN false`) violates the property text on `in`/`nin`: an absent key is read
-as `""`, which may be a member of the value set (`match_unfixed_counterexample`).  Hence
-* `match_eq_sem_partial`  — code as it is, for trees without `""` inside `in`/`nin` sets;
-* `match_eq_sem_fixed`    — full statement for the variant honouring `ok` (`matchN true`);
-* `match_eq_sem_current`  — for whichever variant `Model.Filter.fixApplied` selects.
+History (finding C15-1, fixed in /repo by "fix: tags filter in/nin treat a missing key as having no
+value"): the code before the fix (`matchN false`) violated the property text on `in`/`nin` — an
+absent key was read as `""`, which may be a member of the value set
+(see the `example` after `witnessNin`).
+* `match_eq_sem`          — **the full statement for `filter.Match` as it is now**, no side condition;
+* `match_eq_sem_fixed`    — the same for `matchN true` explicitly;
+* `match_eq_sem_current`  — for whichever variant `Model.Filter.fixApplied` selects (hypothesis
+  trivially true now); the old counter-witness is kept as a checked `example`.
 -/
 namespace CentrifugeVerif.Filter
 open CentrifugeVerif.Decimal
@@ -41,31 +44,39 @@ theorem match_eq_sem_fixed (t : Tags) (n : Node) (h : WellFormed n) :
     matchN true t n = .val (sem t n) :=
   matchN_sem true t n h (Or.inl rfl)
 
-/-- Code as it is.  Full statement (false, see `match_unfixed_counterexample`):
-`∀ t n, WellFormed n → matchN false t n = .val (sem t n)`.
-Proved under the hypothesis that no `in`/`nin` leaf has `""` among its values. -/
-theorem match_eq_sem_partial (t : Tags) (n : Node) (h : WellFormed n) (hne : NoEmptyInSets n) :
-    matchN false t n = .val (sem t n) :=
-  matchN_sem false t n h (Or.inr hne)
+/- Before the fix of C15-1 only a partial statement held (`matchN false`, trees without `""` inside
+`in`/`nin` sets): it is the instance `matchN_sem false t n h (Or.inr hne)` of the lemma in
+`Proofs/Filter.lean`; see the counter-witness below. -/
 
 /-- `filter.Match` as currently modelled (`fixApplied`). -/
 theorem match_eq_sem_current (t : Tags) (n : Node) (h : WellFormed n)
     (hs : fixApplied = true ∨ NoEmptyInSets n) : Match t n = .val (sem t n) :=
   matchN_sem fixApplied t n h hs
 
+/-- **`match_eq_sem`** — for every well-formed tree and every tag map, `filter.Match` (the code as
+it is in /repo) returns the value the filter language defines, without error. -/
+theorem match_eq_sem (t : Tags) (n : Node) (h : WellFormed n) : Match t n = .val (sem t n) :=
+  match_eq_sem_current t n h (Or.inl rfl)
+
+/-- … stated from `Validate`'s verdict. -/
+theorem match_eq_sem_of_validated (t : Tags) (n : Node) (h : validate n = .ok) :
+    Match t n = .val (sem t n) :=
+  match_eq_sem t n ((validate_iff_wellFormed n).mp h)
+
 /-- `In("k", ["", "a"])` and `Nin("k", [""])` -/
 def witnessIn : Node := .mk [] [107] cIn [] [[], [97]] .nil
 def witnessNin : Node := .mk [] [107] cNin [] [[]] .nil
 
-/-- Counter-witness for the code as it is: both trees are accepted by `Validate`; on a tag map
-without the key, `in` matches and `nin` does not, while the key "is in no set". -/
-theorem match_unfixed_counterexample :
+/- Counter-witness for the code *before* the fix (kept as checked `example`, not an obligation):
+both trees are accepted by `Validate`; on a tag map without the key, the old `in` matched and the
+old `nin` did not, while the key "is in no set". -/
+example :
     validate witnessIn = .ok ∧ matchN false [] witnessIn = .val true ∧ sem [] witnessIn = false ∧
     validate witnessNin = .ok ∧ matchN false [] witnessNin = .val false ∧ sem [] witnessNin = true := by
   decide
 
-/-- … and the variant honouring `ok` gets both right. -/
-example : matchN true [] witnessIn = .val false ∧ matchN true [] witnessNin = .val true := by decide
+/-- … and the code as it is gets both right. -/
+example : Match [] witnessIn = .val false ∧ Match [] witnessNin = .val true := by decide
 
 /-! ## what `sem` says (reading the specification back) -/
 
